@@ -1,11 +1,15 @@
-import FalconModel.ErrHandle
+import FalconModel.ErrBody
 open Eh
 /-! Line protocol for C04:
     `new`                         -> `ok`    (empty registry; behaviours of the default handlers 9001/9002/9003 preset)
     `reg <classId> <handlerId>`   -> `ok`    (`App.add_error_handler`, one class)
     `behave <handlerId> <sets:STATUS:k | http:STATUS | status:STATUS | other | drafthttp:STATUS:tdm | draftstatus:STATUS:tdm>` -> `ok`  (k: 0 nothing, 1 text, 2 data, 3 media; tdm: letters of the fields assigned before the raise)
     `find <id,id,...>`            -> handler id | `none`   (`_find_error_handler` on `type(ex).__mro__[:-1]`)
-    `handle <mro> <status of the raised HTTPError/HTTPStatus or 0> <preset fields t|d|m or ->` -> `status=N body=K` | `escape` -/
+    `handle <mro> <status of the raised HTTPError/HTTPStatus or 0> <preset fields t|d|m or ->` -> `status=N body=K` | `escape`
+    `handles <mro> <status or 0> <preset fields t|d|m|s|e or -> <k|s|c>` -> `status=N body=K` | `escape`   (Eb.handleS + Eb.sent: `s` = a stream
+        (token 6) was attached before the raise, `e` = a server-sent events emitter (token 8) was set before the raise (ASGI); last argument = what the custom handler 7 does to `resp.stream`: keeps it, sets its own
+        (token 7), clears it, followed by `e` if the handler also assigns its own emitter (token 10) before it returns / raises;
+        K = token of what is sent, 0 for nothing) -/
 structure St where
   reg : Reg
   behs : List (Handler × Beh)
@@ -53,6 +57,16 @@ def step (s : St) (line : String) : St × String :=
     (s, match handle s.reg (behOf s.behs) (ids mro) st.toNat! r0 with
         | none => "escape"
         | some r => s!"status={r.status} body={(body r).getD 0}")
+  | ["handles", mro, st, pre, act] =>
+    let has (c : Char) : Option Nat := if pre.toList.contains c then some 9 else none
+    let r0 : Resp := { status := 200, text := has 't', data := has 'd', media := has 'm' }
+    let sact : Handler → Eb.StreamAct := fun h =>
+      if h == 7 then (if act.toList.contains 's' then .set 7 else if act.toList.contains 'c' then .clear else .keep) else .keep
+    let eact : Handler → Option Nat := fun h => if h == 7 && act.toList.contains 'e' then some 10 else none
+    (s, match Eb.handleS s.reg (behOf s.behs) sact eact (ids mro) st.toNat!
+                ⟨r0, if pre.toList.contains 's' then some 6 else none, if pre.toList.contains 'e' then some 8 else none⟩ with
+        | none => "escape"
+        | some x => s!"status={x.r.status} body={(Eb.sent x).getD 0}")
   | _ => (s, "bad-op")
 partial def loop (h : IO.FS.Stream) (s : St) : IO Unit := do
   let line ← h.getLine
